@@ -129,6 +129,9 @@ type World struct {
 	// (the PCK CRL those of intermediate / signers / root, the root CRL that of the leaf): a serial number means
 	// something only together with its issuer, so an honest quote stays acceptable.
 	CrossIssuerSerials bool
+	// RootDPFail makes that many leading CRL distribution points of the root fail (alternately with a download
+	// error and with a body that is not a CRL); as long as a later one works the Root CA CRL is obtainable.
+	RootDPFail int
 
 	// Outputs of Build
 	Raw  []byte
@@ -329,8 +332,15 @@ func (w *World) BuildCollateral() {
 		Body:   MakeCRL(w.PKI.Int, w.PKI.Int.Key, pckCrl),
 	}
 	root := MakeCRL(w.PKI.Root, w.PKI.Root.Key, rootCrl)
-	for _, u := range w.PKI.Root.X.CRLDistributionPoints {
-		w.Resp[u] = Response{Body: root}
+	for i, u := range w.PKI.Root.X.CRLDistributionPoints {
+		switch {
+		case i < w.RootDPFail && i < len(w.PKI.Root.X.CRLDistributionPoints)-1 && i%2 == 0:
+			w.Resp[u] = Response{Err: errors.New("scripted: distribution point unreachable")}
+		case i < w.RootDPFail && i < len(w.PKI.Root.X.CRLDistributionPoints)-1:
+			w.Resp[u] = Response{Body: []byte("<html><body>503 Service Unavailable</body></html>")}
+		default:
+			w.Resp[u] = Response{Body: root}
+		}
 	}
 }
 
